@@ -2,6 +2,7 @@
    What is proved is the judge applied to every observed history; schedules and the race detector are runtime facts
    (level: exploration judged by a proved checker). *)
 From Coq Require Import List NArith Bool Arith Permutation.
+From PK.Generated Require Import Consts.
 From PK.Model Require Import C14.
 From PK.Proofs Require C14.
 Import ListNotations.
@@ -35,6 +36,30 @@ Print Assumptions C14_linearizable_store_accepted.
 Theorem C14_atomic_model_linearizable : forall b s, valid_seq b s = true -> respects_rt s = true -> forall l, Permutation s l -> lin_check b l = true.
 Proof. exact C14.atomic_histories_accepted. Qed.
 Print Assumptions C14_atomic_model_linearizable.
+
+(* overlay's two writers (an upload: upper layer, then clear the deleted mark; a removal: upper layer, then set the mark)
+   take the store's mutex in today's source (regenerated flags); serialized, the blob is there exactly if the last
+   writer was an upload; interleaved - the pre-repair code, D50 - an upload running between the two steps of a removal is
+   lost, and the judge rejects the history the harness observed then *)
+Theorem C14_overlay_writers_source : overlay_receive_serialized = true /\ overlay_remove_serialized = true.
+Proof. split; reflexivity. Qed.
+Print Assumptions C14_overlay_writers_source.
+
+Theorem C14_overlay_serialized_writers : forall ops s o,
+  ov_present (ov_run s (flat_map ov_atomic (ops ++ [o]))) = match o with OvRecv => true | OvRem => false end.
+Proof. exact C14.ov_serial_last. Qed.
+Print Assumptions C14_overlay_serialized_writers.
+
+Theorem C14_overlay_interleaved_writers_refuted :
+  let s0 := {| ov_up := true; ov_del := false |} in
+  ov_present (ov_run s0 [RemUpper]) = false /\
+  ov_present (ov_run s0 [RemUpper; RecvUpper; RecvClear; RemMark]) = false /\
+  lin_check true [ {| c_inv := 1; c_ret := 6; c_op := KRemove; c_res := true |};
+                   {| c_inv := 2; c_ret := 3; c_op := KRead; c_res := false |};
+                   {| c_inv := 4; c_ret := 5; c_op := KReceive; c_res := true |};
+                   {| c_inv := 7; c_ret := 8; c_op := KRead; c_res := false |} ] = false.
+Proof. exact C14.ov_interleaved_loses_upload. Qed.
+Print Assumptions C14_overlay_interleaved_writers_refuted.
 
 (* non-vacuity: a read that misses an upload which had returned before it began is rejected; the same read overlapping the
    upload is accepted; a read that still sees a blob after its removal returned is rejected *)
